@@ -311,7 +311,7 @@ def transpose(score: ScoreLike, interval: Interval) -> ScoreLike:
         parts = []
     # transpose the notes of the copy; the argument is left untouched
     for part in parts:
-        for note in part.notes_tied:
+        for note in part.notes:
             _transpose_note_inplace(note, interval)
     return new_score
 
